@@ -43,7 +43,7 @@ def check(R):
     F = R.facts
     # ---- a --------------------------------------------------------------------
     with R.clause('a'):
-        chain_step_rules(R)
+        chain_step_rules(R, with_eku=False)
 
     # ---- b --------------------------------------------------------------------
     with R.clause('b'):
@@ -107,36 +107,42 @@ def check(R):
                 raise GuardMissing(f'{vc.fn}: no comparison of Fabric::fabric_id() with CertRef::get_fabric_id()')
             return e
         R.cut('P2', vc, 'accept the chain (return Ok)', oks_vc, 'the fabric id the certificate carries equals the fabric\'s (mandatory: no path around the comparison)', fid_eq)
+        update_noc_fabric_rule(R)
 
     # ---- e --------------------------------------------------------------------
     with R.clause('e'):
-        # "the leaf carries the prescribed key usages": ext_key_usage_has_all answers true only after it has gone through EVERY required
-        # purpose, and moves on to the next required purpose only after an equality match for the current one
-        b = R.body('cert::CertRef::ext_key_usage_has_all')
-        its = [t for t in b.calls('core::iter::traits::collect::IntoIterator::into_iter', 'core::slice::<impl [T]>::iter')
-               if ('arg', 2) in prims.sources(b, t.d['a'][0])]
-        alls = [t for t in b.calls('core::iter::traits::iterator::Iterator::all') if any(x[0] == 'arg' and x[1] == 2 for x in prims.sources(b, t.d['a'][0], through={'core::slice::<impl [T]>::iter', 'core::iter::traits::collect::IntoIterator::into_iter'}))]
-        trues = [bb for bb, k, pl in prims.result_defs(b) if k == 'agg' and pl.get('var') == 'Ok' and pl['a'][0].get('k', {}).get('v') == 1]
-        if alls:
-            R.cut('P2', b, 'answer true', trues or ok_return_bbs(b), 'all(required) holds', lambda: prims.track_result(F, b, alls[0]).success)
-        elif not its:
-            R.fail('P2', b.fn, 'answer true cut-by every required purpose was looked up in the certificate\'s list',
-                   'the function no longer iterates over `required`: the purposes are not looked up one by one (a membership count lets a repeated purpose stand in for a missing one)', f'{b.file}:{b.line}')
-        else:
-            nx = [t for t in b.calls('core::iter::traits::iterator::Iterator::next')
-                  if any(x[0] == 'call' and x[2] == its[0].bb for x in prims.sources(b, t.d['a'][0]))]
-            R.floor('next() on the iterator over `required`', len(nx), 1)
-            tr = prims.track_result(F, b, nx[0])
-            R.floor('Ok(true) results of ext_key_usage_has_all', len(trues), 1)
-            R.cut('P2', b, 'answer true', trues, 'the iteration over `required` is exhausted (every required purpose was looked up)', tr.failure)
-            eqt = set()
-            for (bb, neg, sa_, sb_, te, fe) in equality_tests(F, b):
-                eqt |= te
-            for (frm, to) in sorted(tr.success):
-                R.cut_from('P2', b, to, 'move on to the next required purpose', [nx[0].bb], 'the current purpose matched an entry of the list (==)', eqt)
+        eku_rule(R)
 
 
-def chain_step_rules(R):
+def eku_rule(R):
+    F = R.facts
+    # "the leaf carries the prescribed key usages": ext_key_usage_has_all answers true only after it has gone through EVERY required
+    # purpose, and moves on to the next required purpose only after an equality match for the current one
+    b = R.body('cert::CertRef::ext_key_usage_has_all')
+    its = [t for t in b.calls('core::iter::traits::collect::IntoIterator::into_iter', 'core::slice::<impl [T]>::iter')
+           if ('arg', 2) in prims.sources(b, t.d['a'][0])]
+    alls = [t for t in b.calls('core::iter::traits::iterator::Iterator::all') if any(x[0] == 'arg' and x[1] == 2 for x in prims.sources(b, t.d['a'][0], through={'core::slice::<impl [T]>::iter', 'core::iter::traits::collect::IntoIterator::into_iter'}))]
+    trues = [bb for bb, k, pl in prims.result_defs(b) if k == 'agg' and pl.get('var') == 'Ok' and pl['a'][0].get('k', {}).get('v') == 1]
+    if alls:
+        R.cut('P2', b, 'answer true', trues or ok_return_bbs(b), 'all(required) holds', lambda: prims.track_result(F, b, alls[0]).success)
+    elif not its:
+        R.fail('P2', b.fn, 'answer true cut-by every required purpose was looked up in the certificate\'s list',
+               'the function no longer iterates over `required`: the purposes are not looked up one by one (a membership count lets a repeated purpose stand in for a missing one)', f'{b.file}:{b.line}')
+    else:
+        nx = [t for t in b.calls('core::iter::traits::iterator::Iterator::next')
+              if any(x[0] == 'call' and x[2] == its[0].bb for x in prims.sources(b, t.d['a'][0]))]
+        R.floor('next() on the iterator over `required`', len(nx), 1)
+        tr = prims.track_result(F, b, nx[0])
+        R.floor('Ok(true) results of ext_key_usage_has_all', len(trues), 1)
+        R.cut('P2', b, 'answer true', trues, 'the iteration over `required` is exhausted (every required purpose was looked up)', tr.failure)
+        eqt = set()
+        for (bb, neg, sa_, sb_, te, fe) in equality_tests(F, b):
+            eqt |= te
+        for (frm, to) in sorted(tr.success):
+            R.cut_from('P2', b, to, 'move on to the next required purpose', [nx[0].bb], 'the current purpose matched an entry of the list (==)', eqt)
+
+
+def chain_step_rules(R, with_eku=True):
     """every chain step (CertVerifier::add_cert / verify_usage) checks authority link, signature, validity window, usage policy and path length"""
     F = R.facts
     ac = R.body(CV + '::add_cert')
@@ -192,6 +198,9 @@ def chain_step_rules(R):
     oks = ok_return_bbs(vu)
     R.floor('Ok return of verify_usage', len(oks), 1)
     R.cut('P2', vu, 'accept the usage policy', oks, 'no unknown critical extension', lambda: _fail(R, vu, 'cert::CertRef::has_critical_future_extension', inner=1))
+    every_extension_rule(R)
+    if with_eku:
+        eku_rule(R)
     ct = named_local(vu, 'cert_type')
     noc_edges, _ = prims.enum_local_edges(F, vu, lambda pl: pl[0] in ct and len(pl) == 1, 'cert::MatterCertType', ['Noc'])
     ca_edges, _ = prims.enum_local_edges(F, vu, lambda pl: pl[0] in ct and len(pl) == 1, 'cert::MatterCertType', ['Icac', 'Rcac'])
@@ -228,6 +237,46 @@ def chain_step_rules(R):
     R.expect('P6', KU, 'key-usage bit constants are distinct single bits', len({F.const_val(KU + n) for n in ('DIGITAL_SIGNATURE', 'KEY_CERT_SIGN')}) == 2, 'ok', 'same value')
     result_used(R, 'P8', ac, ('cert::CertRef::is_authority',))
     result_used(R, 'P8', ac, ('crypto::PublicKey::verify',))
+
+def update_noc_fabric_rule(R):
+    """UpdateNOC installs the new leaf into an existing fabric only after it compared the leaf's fabric id with THAT fabric's id: the
+    comparison guards the installation (Fabrics::update overwrites the fabric's id from the very NOC, so a later test is a tautology)."""
+    F = R.facts
+    un = R.body('failsafe::FailSafe::update_noc')
+    inst = call_bbs(un, 'fabric::Fabrics::update')
+
+    def fid_eq():
+        e = set()
+        for (bb, neg, sa_, sb_, te, fe) in equality_tests(F, un):
+            if 'fabric::Fabric::fabric_id' in src_calls(sa_ | sb_) and 'cert::CertRef::get_fabric_id' in src_calls(sa_ | sb_):
+                e |= te
+        if not e:
+            from facts import GuardMissing
+            raise GuardMissing(f'{un.fn}: no comparison of the NOC fabric id with the id of the fabric being updated before it is updated')
+        return e
+    R.cut('P2', un, 'install the new NOC (Fabrics::update)', inst, 'the NOC carries the fabric id of the fabric being updated (compared before the update)', fid_eq)
+
+
+def every_extension_rule(R):
+    """"no unknown critical extension": the scan for a critical future extension looks at EVERY extension element - the DER probe runs
+    once per element of the iteration (inside the loop over the extensions, or in a closure handed to an iterator adaptor), not once on
+    whichever single element a search returned."""
+    F = R.facts
+    b = R.body('cert::CertRef::has_critical_future_extension')
+    PROBE = 'cert::der_blob_has_critical_extension'
+    sites = [(b, t) for t in b.calls(PROBE)] + [(nb, t) for nb in F.nested(b.fn) for t in nb.calls(PROBE)]
+    R.floor('calls of der_blob_has_critical_extension under has_critical_future_extension', len(sites), 1)
+    for body_, t in sites:
+        if body_ is not b:
+            R.ok('P3', b.fn, 'the critical-flag probe runs per extension element', f'in closure {body_.fn.split("::")[-1]} (called per element by the iterator adaptor)', body_.where(t.bb))
+            continue
+        nexts = [x.bb for x in b.calls() if any(n.endswith('::next') or n.endswith('::try_next') for n in x.callee_names())]
+        fwd = prims.reach(b, b.succ[t.bb])
+        in_loop = t.bb in fwd and any(n in fwd for n in nexts)
+        R.expect('P3', b.fn, 'the critical-flag probe runs per extension element', in_loop, 'inside the loop over extensions()',
+                 'der_blob_has_critical_extension is called once, outside any iteration: only the element a search stopped at is probed, a critical extension '
+                 'in any other future-extensions element is accepted', b.where(t.bb))
+
 
 def dup_fabric_rule(R):
     """AddNOC refuses a fabric that exists already: some equality test on (fabric id) and one on the ROOT PUBLIC KEYS - the staged root's
